@@ -253,6 +253,29 @@ impl Nat {
         }
     }
 
+    /// Quotient and remainder by binary shift-subtract long division; the result is
+    /// self-checked with multiplication (q*d + r == self, r < d), so it need not be trusted.
+    pub fn divrem(&self, d: &Nat) -> (Nat, Nat) {
+        assert!(!d.is_zero());
+        let mut q = Nat::zero();
+        let mut r = Nat::zero();
+        let n = self.bits();
+        q.l = vec![0u64; self.l.len()];
+        for i in (0..n).rev() {
+            r = r.shl(1);
+            if self.bit(i) {
+                r.add_small(1);
+            }
+            if r.cmp(d) != Ordering::Less {
+                r = r.sub(d);
+                q.l[(i / 64) as usize] |= 1u64 << (i % 64);
+            }
+        }
+        q.norm();
+        assert!(q.mul(d).add(&r) == *self && r.cmp(d) == Ordering::Less, "Nat::divrem self-check failed");
+        (q, r)
+    }
+
     /// Parse ASCII decimal digits (no validation beyond a debug assertion).
     pub fn from_dec(d: &[u8]) -> Nat {
         let mut n = Nat::zero();
